@@ -3,6 +3,7 @@
 package req
 
 import (
+	"context"
 	"encoding/json"
 	"encoding/xml"
 	"errors"
@@ -48,22 +49,39 @@ var c18ErrRead = errors.New("c18 body read failure")
 
 // c18Sentinels are the errors scripted stages raise; compared by identity (errors.Is).
 var c18Sentinels = func() []error {
-	l := make([]error, 40)
+	l := make([]error, c18CtxCanceled+1)
 	for i := range l {
 		l[i] = fmt.Errorf("c18 stage error #%d", i)
 	}
+	// an error that wraps context.Canceled, as a transport interrupted by a cancelled context returns
+	// (the context of the request is NOT cancelled: do() looks at the error only)
+	l[c18CtxCanceled] = fmt.Errorf("c18 transport: %w", context.Canceled)
 	return l
 }()
+
+// c18CtxCanceled is the index of the sentinel that wraps context.Canceled (model: Err.ctxCanceled).
+const c18CtxCanceled = 100
+
+var c18ErrOutput = errors.New("c18 output write failure")
 
 // c18ErrName maps an error to the small enum shared with the model.
 func c18ErrName(err error) string {
 	if err == nil {
 		return "-"
 	}
+	if err == context.Canceled || err == context.DeadlineExceeded {
+		return "ctxdone" // r.Context().Err() itself, assigned by do()'s wait
+	}
 	for i, s := range c18Sentinels {
 		if errors.Is(err, s) {
+			if i == c18CtxCanceled {
+				return "ctxcanceled"
+			}
 			return "s" + strconv.Itoa(i)
 		}
+	}
+	if errors.Is(err, c18ErrOutput) {
+		return "output"
 	}
 	var u *c18UnmErr
 	if errors.As(err, &u) {
@@ -186,6 +204,19 @@ var c18Checkers = []c18Checker{
 		}
 		return ErrorState
 	}},
+	{"oor", func(r *Response) ResultState { // out-of-range values for some statuses
+		switch {
+		case r.StatusCode%5 == 0:
+			return ResultState(7)
+		case r.StatusCode%7 == 0:
+			return ResultState(-1)
+		case r.StatusCode >= 200 && r.StatusCode <= 299:
+			return SuccessState
+		case r.StatusCode >= 400:
+			return ErrorState
+		}
+		return UnknownState
+	}},
 }
 
 func c18StateName(s ResultState) string {
@@ -197,7 +228,9 @@ func c18StateName(s ResultState) string {
 	case UnknownState:
 		return "U"
 	}
-	return "?" + strconv.Itoa(int(s))
+	// a custom checker may return a value outside the three constants: the library treats it like
+	// UnknownState (neither predicate holds, no switch arm binds) — the lanes check exactly that
+	return "U"
 }
 
 func c18b(b bool) string {
